@@ -3,7 +3,7 @@
 (* documents.  The harness supplies ground truth about the damaged bytes      *)
 (* (does the armor still decode, is the canonical signed text unchanged, is   *)
 (* the signature packet unchanged); the acceptance rules are the spec's.      *)
-EXTENDS Deb822, TraceLib
+EXTENDS Deb822, TraceLib, LongTrace
 VARIABLES l, verdict
 vars == <<l, verdict>>
 
@@ -96,7 +96,8 @@ JudgeOps(rec) ==
        ELSE V(FALSE, "reader-lifecycle", "with several readers alive in one process, a reader (" \o ops[first].op \o
               ") does not deliver exactly the paragraphs of its own document followed by end-of-input, or reports the wrong signer")
 
-JudgeAny(rec) == IF rec.ev = "cs_ops" THEN JudgeOps(rec)
+JudgeAny(rec) == IF IsLong(rec) THEN JudgeLong(rec)
+                 ELSE IF rec.ev = "cs_ops" THEN JudgeOps(rec)
                  ELSE IF rec.in.mut.op = "multi_sig" THEN JudgeMulti(rec) ELSE Judge(rec)
 
 Init == l \in 1..Len(Trace) /\ verdict = Pending
